@@ -20,3 +20,56 @@ func HarnessC10Step() {
 	vassert("C10.step", got == refCRCStep(s, b))
 	vreach("C10.step.end")
 }
+
+// refCRCBitwise: CRC-32/MPEG-2 of m, bit-serial (poly 0x04C11DB7, init 0xFFFFFFFF, MSB first, no reflection, no final XOR)
+func refCRCBitwise(m []byte) uint32 {
+	s := uint32(0xFFFFFFFF)
+	for _, b := range m {
+		s = refCRCStep(s, b)
+	}
+	return s
+}
+
+// HarnessC10Table: every table entry is the 8-round shift register image of its index
+func HarnessC10Table() {
+	i := vnondetU8()
+	vassert("C10.table", tableCRC32[i] == refCRCStep(0, i))
+	vreach("C10.table.end")
+}
+
+// HarnessC10Init: initial value 0xFFFFFFFF, no final XOR; computeCRC32 is updateCRC32 from the initial value
+func HarnessC10Init(n int) {
+	vassert("C10.init.empty", computeCRC32(nil) == 0xFFFFFFFF)
+	m := vnondetBytes(n)
+	vassert("C10.init.compute", computeCRC32(m) == updateCRC32(0xFFFFFFFF, m))
+	vreach("C10.init.end")
+}
+
+// HarnessC10Chunk: feeding the input in two pieces (every split point) or byte by byte gives the one-pass value
+func HarnessC10Chunk(n int) {
+	s := vnondetU32()
+	m := vnondetBytes(n)
+	k := vrange(0, n)
+	vassert("C10.chunk.split", updateCRC32(updateCRC32(s, m[:k]), m[k:]) == updateCRC32(s, m))
+	t := s
+	for _, b := range m {
+		t = updateCRC32(t, []byte{b})
+	}
+	vassert("C10.chunk.bytewise", t == updateCRC32(s, m))
+	vreach("C10.chunk.end")
+}
+
+// HarnessC10Full: whole-message equivalence with the bit-serial reference for every message of length n
+func HarnessC10Full(n int) {
+	m := vnondetBytes(n)
+	vassert("C10.full", computeCRC32(m) == refCRCBitwise(m))
+	vreach("C10.full.end")
+}
+
+// HarnessC10Residue: a message followed by its big-endian checksum has residue 0 (s = the state after the message)
+func HarnessC10Residue() {
+	s := vnondetU32()
+	r := updateCRC32(s, []byte{byte(s >> 24), byte(s >> 16), byte(s >> 8), byte(s)})
+	vassert("C10.residue", r == 0)
+	vreach("C10.residue.end")
+}
